@@ -137,8 +137,15 @@ class SugarGen:
             cell = "{@range(" + str(k) + ")@}"
         else:
             cell = "{@[" + ",".join(repr(e) for e in elems) + "]@}"
+        outer_idx = [x for x in scope if x.startswith("i")]
+        if outer_idx and rng.random() < 0.35:
+            # the list depends on an enclosing loop: empty on one pass, non-empty on another
+            cell = "{@range(" + rng.choice(outer_idx) + ")@}"
+        inc = rng.choice(["", "", "", "FALSE"])
+        if scope and rng.random() < 0.3:
+            inc = self.include_if(scope) or inc
         self.rows.append({"row_id": bid, "type": "begin_for", "from": frm, "loop_variable": var + (";" + idx if use_idx else ""),
-                          "message_text": cell, "include_if": rng.choice(["", "", "", "FALSE"])})
+                          "message_text": cell, "include_if": inc})
         self.budget -= 1
         inner_scope = scope + [var] + ([idx] if use_idx else [])
         self.body(depth + 1, inner_scope, [], None)
@@ -151,7 +158,11 @@ class SugarGen:
         rng = self.rng
         bid = self._id("B")
         excluded = rng.random() < 0.25
-        self.rows.append({"row_id": bid, "type": "begin_block", "from": frm, "include_if": "FALSE" if excluded else ""})
+        inc = "FALSE" if excluded else ""
+        if not excluded and scope and rng.random() < 0.4:
+            # included on some passes of the enclosing loop only
+            inc = self.include_if(scope)
+        self.rows.append({"row_id": bid, "type": "begin_block", "from": frm, "include_if": inc})
         self.budget -= 1
         if excluded and rng.random() < 0.5:
             # contents of an excluded block are never evaluated: an unevaluable template is harmless
@@ -249,12 +260,16 @@ def desugar(rows: list[dict], context: dict | None = None) -> list[dict]:
                     pos = skip_block(pos + 1, "end_for")
                     continue
                 lv = cp.parse(raw.get("loop_variable", ""), ctx)
+                if lv is None:
+                    raise DesugarRenderError("loop variable cannot be instantiated")
                 lv = lv if isinstance(lv, list) else [lv]
                 var = lv[0] if lv and lv[0] else None
                 if not var:
                     raise DesugarError("loop without variable")
                 idx = lv[1] if len(lv) >= 2 and lv[1] else None
                 items = cp.parse(raw.get("message_text", ""), ctx)
+                if items is None or lv is None:
+                    raise DesugarRenderError("loop list / loop variable cannot be instantiated")
                 begin = dict(row)
                 begin.update({"type": "begin_block", "message_text": "", "loop_variable": "", "include_if": ""})
                 emit(begin)
